@@ -124,6 +124,29 @@ class WithMeta(metaclass=Meta):
     pass
 
 
+def _caller():
+    """Who compared / hashed the class: a MonkeyType function by name; callers in the standard library (typing's subscription cache, inspect.getattr_static)
+    are lumped together, since whether typing re-checks an argument depends on the state of its caches."""
+    f = sys._getframe(2)
+    mod = f.f_globals.get("__name__", "?")
+    return "%s:%s" % (mod, f.f_code.co_name) if mod.startswith("monkeytype") else "<stdlib>"
+
+
+class EqMeta(type):
+    """Structural class equality (ORM style): comparing or hashing the *class* of a traced value is user code; the journal names the caller."""
+    def __eq__(cls, other):
+        JOURNAL.append(("meta.__eq__@" + _caller(),))
+        return cls is other
+
+    def __hash__(cls):
+        JOURNAL.append(("meta.__hash__@" + _caller(),))
+        return id(cls) >> 4
+
+
+class WithEqMeta(metaclass=EqMeta):
+    pass
+
+
 def take(x):
     return x
 
@@ -177,7 +200,7 @@ WORKLOADS = {
     "spy-str-keys": _spy_str_dict, "spy-str-keys-nested": lambda: [_spy_str_dict()],
     "spy-dict-keys": lambda: {Spy("key"): 1, FakeClass(): 2},
     "spy": lambda: Spy("s"), "fake-class": FakeClass, "lazy-prop": LazyProp, "spy-list": lambda: SpyList([1, 2]), "spy-dict": lambda: SpyDict(a=1),
-    "spy-set": lambda: SpySet({1}), "spy-tuple": lambda: SpyTuple((1, 2)), "with-meta": WithMeta, "meta-class-object": lambda: WithMeta,
+    "spy-set": lambda: SpySet({1}), "spy-tuple": lambda: SpyTuple((1, 2)), "with-meta": WithMeta, "eq-meta": WithEqMeta, "eq-meta-nested": lambda: [WithEqMeta(), {1: WithEqMeta()}, {WithEqMeta()}], "meta-class-object": lambda: WithMeta,
     "nested": lambda: [Spy("n"), {"k": SpyList([Spy("m")])}, (SpyDict(), LazyProp())],
 }
 
@@ -238,7 +261,7 @@ def run(ctx):
                 H.ok(key, sample={"workload": name, "k": k, "journal_len": len(j0), "traces": col.n})
             elif traced == base and restored and col.flushed == 1 and j1 != j0:
                 hooks = sorted({e[0] if e[0] != "getattribute" else "getattribute:" + e[2] for e in j1[len(j0):]} | {e[0] if e[0] != "getattribute" else "getattribute:" + e[2] for e in extra})
-                H.violation("monkeytype.typing:get_type", "C03-user-code|%s|%s" % (name, hooks), "tracing runs user-defined code on a program object (%s)" % ", ".join(hooks),
+                H.violation("monkeytype.typing:get_type", "C03-user-code|%s|%s" % (name, [h for h in hooks if not h.endswith("@<stdlib>")]), "tracing runs user-defined code on a program object (%s)" % ", ".join(hooks),
                             {"workload": name, "k": k}, {"hooks": hooks, "untraced_journal": len(j0), "traced_journal": len(j1)})
             else:
                 H.violation("monkeytype.tracing:trace_calls", "differential:%s:%s" % (key, (traced == base, restored, col.flushed, col.n)), "traced program differs from the untraced one",
